@@ -742,7 +742,7 @@ def _run_history(b, ops, every_step=True):
 def _op_universe():
     ops = []
     for name in ("N1", "R1", "M1", "G1"):
-        for (s, e) in ((0, 2), (2, 2), (2, 5), (5, None), (None, 2), (0, 5)):
+        for (s, e) in ((0, 2), (2, 2), (2, 5), (5, None), (None, 2), (0, 5), (5, 2), (2, 0)):  # (the last two: an end before the start - two independent registrations)
             ops.append(("add", name, s, e))
         for which in ("start", "end", "both"):
             ops.append(("rm", name, which))
@@ -772,6 +772,51 @@ def bounded(b):
     for _ in range(nrand):
         k = rng.randint(3, 7)
         _run_history(b, [rng.choice(U) for _ in range(k)], every_step=not quick)
+    _point_primitives(b)
+
+
+def _point_primitives(b):
+    """TimePoint.remove_starting_object / remove_ending_object (used by the slur and tuplet setters and by the MusicXML reader): the object is no
+    longer listed by the point, on points that no query has looked at before as well as on points that were queried"""
+    import partitura.score as sc
+    for queried_before in (False, True):
+        for kind in ("ending", "starting"):
+            p = sc.Part("P", quarter_duration=4)
+            n, r, m = sc.Note("C", 4, id="n"), sc.Rest(id="r"), sc.Measure(number=1)
+            p.add(m, 0, 8)
+            p.add(n, 0, 4)
+            p.add(r, 1, 3)
+            case = {"primitive": "remove_%s_object" % kind, "point_queried_before": queried_before}
+            if queried_before:
+                list(p.iter_all(sc.Rest)), list(p.iter_all(sc.Rest, mode="ending")), list(p.iter_all())
+            try:
+                tp = p.get_point(3 if kind == "ending" else 1)
+                (tp.remove_ending_object if kind == "ending" else tp.remove_starting_object)(r)
+                listed = r in list(p.iter_all(sc.Rest, mode=kind)) or any(r in v for v in (tp.ending_objects if kind == "ending" else tp.starting_objects).values())
+                ref = r.end if kind == "ending" else r.start
+            except Exception as e:
+                b.case("history/no_exception_on_valid_arguments", False, case, "%s: %s" % (type(e).__name__, e))
+                continue
+            b.case("history/start_and_end_refer_to_the_point_that_lists_the_object", not listed and ref is None, case,
+                   "after the call the point %s the rest and the rest's %s is %r" % ("still lists" if listed else "no longer lists", "end" if kind == "ending" else "start", ref))
+        # the same through the slur setter: a slur already on the timeline whose end note is re-assigned is listed once, at the new end
+        p = sc.Part("P", quarter_duration=4)
+        a, c, d = sc.Note("C", 4, id="a"), sc.Note("D", 4, id="c"), sc.Note("E", 4, id="d")
+        p.add(a, 0, 4), p.add(c, 4, 8), p.add(d, 8, 12)
+        sl = sc.Slur(a, d)
+        p.add(sl, 0, 12)
+        case = {"primitive": "Slur.end_note = another note", "point_queried_before": queried_before}
+        if queried_before:
+            list(p.iter_all(sc.Slur, mode="ending"))
+        try:
+            sl.end_note = c
+            ends = [x for x in p.iter_all(sc.Slur, mode="ending")]
+            where = sorted(t.t for t in p._points if any(sl in v for v in t.ending_objects.values()))
+        except Exception as e:
+            b.case("history/no_exception_on_valid_arguments", False, case, "%s: %s" % (type(e).__name__, e))
+            continue
+        b.case("history/start_and_end_refer_to_the_point_that_lists_the_object", ends == [sl] and where == [sl.end.t if sl.end is not None else None], case,
+               "the slur is listed as ending at %r (%d times by the query), its end is %r" % (where, len(ends), sl.end.t if sl.end is not None else None))
 
 
 def replay_case(clause, case):
